@@ -968,3 +968,115 @@ def gen_gateway_fn() -> str:
                    f"  let '({', '.join(GW_STATE)}) := s in\n{textwrap.indent(term, '  ')}.\n\n")
         methods.append(f"{cname}_{name}")
     return "".join(out)
+
+
+# ==================================================================================================
+# Multicast.subscribe / unsubscribe (bellows/multicast.py): coroutines with ONE await -- the awaited result is a
+# parameter of the emitted function (an answer: status | the call raised)
+# ==================================================================================================
+class McTr:
+    """host side of one subscribe / unsubscribe call.  State variables: subs (the _multicast dict as an association
+    list group -> index), avail (the _available set as a list), entry_id / entry_ep (fields of the local `entry`),
+    idx, status.  Result: (subs, avail, ret, write) with write = Some (idx, multicastId, endpoint) if the table write
+    was issued."""
+
+    OUT = "(subs, avail, {ret}, write)"
+
+    def __init__(self, where):
+        self.where = where
+
+    def refuse(self, node, why="unsupported construct"):
+        raise GenError(self.where, f"{why}: `{ast.unparse(node)[:100]}`")
+
+    def ret(self, value):
+        v = ast.unparse(value)
+        if v == "t.sl_Status.OK":
+            return self.OUT.format(ret="RStatus sl_OK")
+        if v == "t.sl_Status.INVALID_INDEX":
+            return self.OUT.format(ret="RStatus INVALID_INDEX")
+        if v == "status[0]":
+            return self.OUT.format(ret="RStatus status")
+        self.refuse(value, "return value")
+
+    def skip(self, s):
+        src = ast.unparse(s)
+        return src.startswith("LOGGER.") or (isinstance(s, ast.Expr) and isinstance(s.value, ast.Constant))
+
+    def stmts(self, body):
+        if not body:
+            raise GenError(self.where, "control reaches the end of the coroutine without a return")
+        s, rest = body[0], body[1:]
+        src = ast.unparse(s)
+        if self.skip(s):
+            return self.stmts(rest)
+        if isinstance(s, ast.Return):
+            return self.ret(s.value)
+        if isinstance(s, ast.Raise) and s.exc is None:
+            return self.OUT.format(ret="RRaised")
+        # if group_id in self._multicast: ...
+        if isinstance(s, ast.If) and ast.unparse(s.test) == "group_id in self._multicast" and not s.orelse:
+            return (f"match lookup group_id subs with\n| Some _ =>\n{textwrap.indent(self.stmts(list(s.body)), '    ')}\n"
+                    f"| None =>\n{textwrap.indent(self.stmts(rest), '    ')}\nend")
+        # try: idx = self._available.pop()  except KeyError: ...
+        if isinstance(s, ast.Try) and len(s.body) == 1 and ast.unparse(s.body[0]) == "idx = self._available.pop()" \
+                and len(s.handlers) == 1 and ast.unparse(s.handlers[0].type) == "KeyError" and not s.orelse and not s.finalbody:
+            return (f"match pick choice avail with\n| None =>\n{textwrap.indent(self.stmts(list(s.handlers[0].body)), '    ')}\n"
+                    f"| Some idx =>\n    let avail := remove_idx idx avail in\n{textwrap.indent(self.stmts(rest), '    ')}\nend")
+        # try: entry, idx = self._multicast[group_id]  except KeyError: ...
+        if isinstance(s, ast.Try) and len(s.body) == 1 and _dump(ast.unparse(s.body[0])) == _dump("entry, idx = self._multicast[group_id]") \
+                and len(s.handlers) == 1 and ast.unparse(s.handlers[0].type) == "KeyError" and not s.orelse and not s.finalbody:
+            return (f"match lookup group_id subs with\n| None =>\n{textwrap.indent(self.stmts(list(s.handlers[0].body)), '    ')}\n"
+                    f"| Some idx =>\n    let entry_id := group_id in\n{textwrap.indent(self.stmts(rest), '    ')}\nend")
+        if src == "entry = t.EmberMulticastTableEntry()":
+            return self.stmts(rest)
+        m = {"entry.endpoint = t.uint8_t(1)": "let entry_ep := 1 in", "entry.endpoint = t.uint8_t(0)": "let entry_ep := 0 in",
+             "entry.multicastId = t.EmberMulticastId(group_id)": "let entry_id := group_id in",
+             "entry.networkIndex = t.uint8_t(0)": None,
+             "self._available.add(idx)": "let avail := set_add idx avail in",
+             "self._multicast[entry.multicastId] = (entry, idx)": "let subs := dict_set entry_id idx subs in",
+             "self._multicast.pop(group_id)": "let subs := dict_del group_id subs in"}
+        if src in m:
+            return (m[src] + "\n" if m[src] else "") + self.stmts(rest)
+        # the await, guarded or not
+        AWAIT = "status = await self._ezsp.setMulticastTableEntry(idx, entry)"
+        if isinstance(s, ast.Try) and len(s.body) == 1 and ast.unparse(s.body[0]) == AWAIT and len(s.handlers) == 1 \
+                and ast.unparse(s.handlers[0].type) == "BaseException" and not s.orelse and not s.finalbody:
+            on_exc = self.stmts(list(s.handlers[0].body))
+            return (f"let write := Some (idx, entry_id, entry_ep) in\nmatch a with\n| Ans status =>\n{textwrap.indent(self.stmts(rest), '    ')}\n"
+                    f"| _ =>\n{textwrap.indent(on_exc, '    ')}\nend")
+        if src == AWAIT:
+            return (f"let write := Some (idx, entry_id, entry_ep) in\nmatch a with\n| Ans status =>\n{textwrap.indent(self.stmts(rest), '    ')}\n"
+                    f"| _ => {self.OUT.format(ret='RRaised')}\nend")
+        if isinstance(s, ast.If) and ast.unparse(s.test) == "t.sl_Status.from_ember_status(status[0]) != t.sl_Status.OK" and not s.orelse:
+            return (f"if negb (status_ok status) then\n{textwrap.indent(self.stmts(list(s.body)), '  ')}\nelse\n"
+                    f"{textwrap.indent(self.stmts(rest), '  ')}")
+        self.refuse(s)
+
+
+def gen_multicast_fn() -> str:
+    import bellows.multicast as M
+    out = ["(* GENERATED by harness/pysrc.py from the SOURCE TEXT of bellows/multicast.py -- do not edit *)\n"
+           "From Coq Require Import NArith List Bool.\nImport ListNotations.\nRequire Import BV.gen.GenStatus BV.model.Status BV.model.Multicast.\nOpen Scope N_scope.\n\n"
+           "(* one call on the host side: the dict / set before, the element set.pop() returns (subscribe), the outcome of the\n"
+           "   awaited table write; result: dict, set, what the call reports, the write issued (index, multicastId, endpoint) *)\n\n"]
+    for name, extra in (("subscribe", " (choice : N)"), ("unsubscribe", "")):
+        fn = M.Multicast.__dict__[name]
+        node = _fn_ast_async(fn)
+        got = [a.arg for a in node.args.args if a.arg != "self"]
+        if got != ["group_id"]:
+            raise GenError(f"Multicast.{name}", f"parameters {got}")
+        tr = McTr(f"Multicast.{name} (source)")
+        term = tr.stmts(list(node.body))
+        out.append(f"(* from the source of Multicast.{name} *)\n"
+                   f"Definition py_{name} (subs : list (N * N)) (avail : list N) (group_id : N){extra} (a : answer)\n"
+                   f"  : list (N * N) * list N * ret * option (N * N * N) :=\n"
+                   f"  let write := @None (N * N * N) in\n{textwrap.indent(term, '  ')}.\n\n")
+    return "".join(out)
+
+
+def _fn_ast_async(fn):
+    src = textwrap.dedent(inspect.getsource(fn))
+    node = ast.parse(src).body[0]
+    if not isinstance(node, ast.AsyncFunctionDef):
+        raise GenError(getattr(fn, "__qualname__", str(fn)), "not a coroutine function")
+    return node
